@@ -567,6 +567,9 @@ func (t *Tree) RerootMidPoint() error {
 			potentialedges = edges
 		}
 	}
+	if len(potentialedges) == 0 {
+		return errors.New("cannot reroot at midpoint: all tip to tip paths have a length of 0")
+	}
 	// Path potentialedges starts from tip 1:
 	// potentialedges[0].Right()
 	// And ends at tip 2:
